@@ -4,6 +4,7 @@ import (
 	"bytes"
 	"fmt"
 	"strings"
+	"time"
 
 	"github.com/ClickHouse/ch-go/proto"
 
@@ -130,5 +131,132 @@ func c16EnumReinfer(r *core.Run, ci int64) {
 	}
 	if encodes >= 2 {
 		r.NonTrivial("enum-reinfer", strings.Join(hist, ";"))
+	}
+}
+
+// c16DT64Reinfer: one ColDateTime64 object meets blocks of changing precision / zone, the way
+// Results.DecodeResult drives it (Infer on the still filled column, Reset, DecodeColumn), with
+// appends and encodes in between. Raw values, Row(i) and Type() must follow the parameters in
+// force, whatever the column held when they changed.
+func c16DT64Reinfer(r *core.Run, ci int64) {
+	rng := r.Rand(ci, "dt64")
+	col := new(proto.ColDateTime64)
+	var model []int64
+	var hist []string
+	p := 0
+	pow := int64(1)
+	r.Eval()
+	fail := func(cls, msg string) {
+		r.Violation("ColDateTime64-reinfer:"+cls, fmt.Sprintf("%s after history [%s]", msg, strings.Join(hist, "; ")), map[string]any{"history": hist})
+	}
+	setP := func(np int) {
+		p, pow = np, 1
+		for i := 0; i < np; i++ {
+			pow *= 10
+		}
+	}
+	typ := ""
+	reinfer := func(withRows bool) bool {
+		np := rng.Intn(10)
+		typ = fmt.Sprintf("DateTime64(%d)", np)
+		if rng.Intn(2) == 0 {
+			typ = fmt.Sprintf("DateTime64(%d, 'UTC')", np)
+		}
+		k := 0
+		if withRows {
+			k = rng.Intn(5)
+		}
+		hist = append(hist, fmt.Sprintf("Infer %s + Reset + Decode %d rows", typ, k))
+		if err := col.Infer(proto.ColumnType(typ)); err != nil {
+			fail("infer-error", err.Error())
+			return false
+		}
+		setP(np)
+		col.Reset()
+		model = model[:0]
+		var raw []byte
+		for i := 0; i < k; i++ {
+			v := (rng.Int63n(4102444800) - 100000) * pow // within 1966..2100 at every precision
+			model = append(model, v)
+			for b := 0; b < 8; b++ {
+				raw = append(raw, byte(uint64(v)>>(8*b)))
+			}
+		}
+		if k > 0 {
+			if err := col.DecodeColumn(proto.NewReader(bytes.NewReader(raw)), k); err != nil {
+				fail("decode-error", err.Error())
+				return false
+			}
+		}
+		return true
+	}
+	if !reinfer(true) {
+		return
+	}
+	encodes, changes := 0, 0
+	for step := 0; step < 4+rng.Intn(10); step++ {
+		ok := true
+		pn := core.Recover(func() {
+			switch rng.Intn(6) {
+			case 0:
+				ok = reinfer(true)
+				changes++
+			case 1, 2, 3:
+				sec := rng.Int63n(4102444800) - 100000
+				tick := rng.Int63n(pow)
+				tt := time.Unix(sec, tick*(1e9/pow)).UTC()
+				col.Append(tt)
+				model = append(model, sec*pow+tick)
+				hist = append(hist, "Append "+tt.Format(time.RFC3339Nano))
+			case 4:
+				col.Reset()
+				model = model[:0]
+				hist = append(hist, "Reset")
+			default:
+				hist = append(hist, "EncodeColumn")
+				var b proto.Buffer
+				col.EncodeColumn(&b)
+				encodes++
+				var want []byte
+				for _, v := range model {
+					for i := 0; i < 8; i++ {
+						want = append(want, byte(uint64(v)>>(8*i)))
+					}
+				}
+				if !bytes.Equal(b.Buf, want) {
+					fail("encode-content", fmt.Sprintf("under %s the column encodes to % x, want % x", typ, clip(b.Buf), clip(want)))
+					ok = false
+				}
+			}
+		})
+		if pn != "" {
+			fail("panic", pn)
+			return
+		}
+		if !ok {
+			return
+		}
+		if col.Rows() != len(model) {
+			fail("rows", fmt.Sprintf("Rows() = %d, model %d", col.Rows(), len(model)))
+			return
+		}
+		for i, v := range model {
+			got := col.Row(i)
+			sec, tick := v/pow, v%pow
+			if tick < 0 {
+				sec, tick = sec-1, tick+pow
+			}
+			if got.Unix() != sec || int64(got.Nanosecond()) != tick*(1e9/pow) {
+				fail("row-value", fmt.Sprintf("Row(%d) = %s for raw value %d at precision %d", i, got.UTC().Format(time.RFC3339Nano), v, p))
+				return
+			}
+		}
+		if got := col.Type(); got.Conflicts(proto.ColumnType(typ)) || !strings.HasPrefix(string(got), fmt.Sprintf("DateTime64(%d", p)) {
+			fail("type", fmt.Sprintf("Type() = %q after Infer(%q)", got, typ))
+			return
+		}
+	}
+	if encodes >= 1 && changes >= 1 {
+		r.NonTrivial("dt64-reinfer", strings.Join(hist, ";"))
 	}
 }
